@@ -18,13 +18,14 @@ use eyre::WrapErr;
 
 use crate::{
     component::ExecResult,
-    components::{initialization, mutation, replacement, selection},
+    components::{initialization, mutation, replacement, selection, Scope},
     conditions::Condition,
     configuration::Configuration,
     heuristics::ls,
     identifier::{Global, Identifier},
     logging::Logger,
     problems::{LimitedVectorProblem, SingleObjectiveProblem, VectorProblem},
+    state::common,
     Component,
 };
 
@@ -122,7 +123,16 @@ where
                 .do_(perturbation)
                 .evaluate_with::<I>()
                 .do_(selection::All::new())
-                .scope_(|builder| builder.do_(ls))
+                .do_(Scope::new_with(
+                    |_| Ok(()),
+                    ls,
+                    // The local search counts its evaluations in its own scope.
+                    |state, inner| {
+                        let evaluations = inner.try_get_value::<common::Evaluations>()?;
+                        *state.try_borrow_value_mut::<common::Evaluations>()? += evaluations;
+                        Ok(())
+                    },
+                ))
                 .do_(replacement::MuPlusLambda::new(1))
                 // Drop the perturbed solution the local search result was compared against.
                 .do_(replacement::Generational::new(1))
